@@ -232,7 +232,7 @@ Proof.
     + destruct (pi_is_last pi1); [subst r; cbn in Hc; injection Hc as <-; congruence|].
       destruct (check_permission m OpenLookup (v_user v)); [|subst r; discriminate He].
       apply (IH vol n pi1 sl saved r c); auto. unfold node_is_dir. rewrite Hgn. reflexivity.
-    + destruct (pi_is_last pi1); subst r; [cbn in Hc; injection Hc as <-; congruence|discriminate He].
+    + destruct (pi_is_last pi1); subst r; [cbn in Hc; injection Hc as <-; congruence|cbn in He; destruct (v_os v); discriminate He].
     + rewrite Hslm, andb_false_r in Hr. destruct (Nat.ltb slCountMax (S sl)); [subst r; discriminate He|].
       destruct (pi_replace_part (v_os v) pi1 t) as [reset pi2].
       eapply (IH vol (if reset then vol else p0)); eauto. destruct reset; assumption.
